@@ -7,6 +7,7 @@ from . import core
 TRUSTED = [
     "Lean 4.33.0 kernel; axioms propext, Classical.choice, Quot.sound only (audited by #print axioms)",
     "hand-written model Goag.Resp (operation / response type names, emitted response types and their write<Op> method sets, what Write emits, the client's status switch) — tied to the code on every run, not verified",
+    "hand-written model Goag.RespHdr (field lines written per declared response header, the client's reader) — tied on every C10 run: the real field lines and the client's value of every in-process round trip against writeLines / readLines",
     "go/types (types.Implements over the whole generated package) as the judge of which types satisfy an operation's response interface",
     "Go reflection driver /verif/harness/rt (seeded value filling under the domain restrictions of DESIGN.md §11, recording HTTP client)",
     "net/http, net/url, encoding/json, strconv, time as the transport between generated client and generated server",
@@ -83,6 +84,66 @@ def rt_written(obs):
     return ";".join(sorted(rw)), True
 
 
+def header_values(ctx, impl, gens, st, distinct, samples, viol, corr):
+    """C10, header values: the field lines the generated server wrote and the value the generated
+    client rebuilt, against the Lean model Goag.RespHdr (writeLines / readLines, the subject of
+    read_write_header) — one evaluation per declared header of every in-process round trip."""
+    reqs, keys = [], []
+    for cid, o in impl.items():
+        if "#" not in cid or cid.split("#")[1][0] != "c":
+            continue
+        m = re.search(r" hdrs=(\S*)$", o)
+        if not m or m.group(1) == "-":
+            continue
+        for ent in m.group(1).split(";"):
+            f = ent.split("|")
+            if len(f) != 7:
+                corr.append({"case": cid, "detail": {"header_entry": ent[:200], "what": "malformed header observation"}, "spec": spec_of(gens, cid)})
+                continue
+            name, ty, arr, req, lines, sent, got = f
+            if ty == "x":
+                st["kinds"]["header-value(outside the model: float / time / named type)"] = st["kinds"].get("header-value(outside the model: float / time / named type)", 0) + 1
+                continue
+            keys.append((cid, name, ty, arr, req, lines, sent, got))
+            reqs.append("hdrrt\t%s.%s\t%s\t%s\t%s\t%s\t%s" % (cid, name, ty, arr, req, lines, sent))
+    if not reqs:
+        return
+    ans = core.run_driver(reqs, ctx, name="hdr")
+    if len(ans) != len(reqs):
+        ctx.broken.append({"kind": "driver-desync", "detail": "%d header cases, %d answers" % (len(reqs), len(ans))})
+        return
+    for (cid, name, ty, arr, req, lines, sent, got), a in zip(keys, ans):
+        af = a.split("\t")
+        st["evaluations"] += 1
+        k = "header-value"
+        st["kinds"][k] = st["kinds"].get(k, 0) + 1
+        shape = "header-value[%s,%s,%s,%s]" % (ty, "array" if arr == "1" else "scalar", "required" if req == "1" else "optional",
+                                               "unset" if sent == "u" else ("empty-string" if sent == "o:x" else "set"))
+        st["kinds"][shape] = st["kinds"].get(shape, 0) + 1
+        mlines = af[1] if len(af) > 1 else "?"
+        mread = af[2] if len(af) > 2 else "?"
+        got_matches = (got == mread) or (got == "err" and mread.startswith("err:"))
+        okm = mlines == lines and got_matches
+        # reference (the property): the client's value is the handler's value; domain: a set array is non-empty
+        in_domain = sent != "m:"
+        okr = (got == sent) or not in_domain
+        if not in_domain:
+            st["kinds"]["header-value(empty array: outside the domain)"] = st["kinds"].get("header-value(empty array: outside the domain)", 0) + 1
+        detail = {"header_field": name, "declared": {"type": ty, "array": arr == "1", "required": req == "1"}, "field_lines_on_the_wire": lines,
+                  "model_writeLines": mlines, "handler_sent": sent, "client_returned": got, "model_readLines": mread}
+        distinct.add((cid.split("#")[0], name, sent))
+        if okm:
+            st["agree_model"] += 1
+        if okr:
+            st["agree_ref"] += 1
+        if len(samples) < 3 and k not in [x["kind"] for x in samples]:
+            samples.append({"id": cid, "kind": k, "detail": detail})
+        if okm and okr:
+            continue
+        item = {"case": cid, "detail": detail, "spec": spec_of(gens, cid)}
+        (corr if okr else viol).append(item)
+
+
 def check(ctx, prop, modules, theorems, rule, explanation, assumptions, level):
     audit = core.proof_audit(ctx, modules, theorems)
     res = run(ctx)
@@ -121,6 +182,8 @@ def check(ctx, prop, modules, theorems, rule, explanation, assumptions, level):
                                  "spec": bytes.fromhex(g[4]).decode("utf-8", "replace")})
         if meta.get("stats", {}).get("implementers_unavailable") and prop == "C02":
             ctx.broken.append({"kind": "extraction", "detail": "go/types implementer extraction unavailable"})
+        if prop == "C10":
+            header_values(ctx, impl, gens, st, distinct, samples, viol, corr)
         for cid, o in impl.items():
             kind = cid.split("#")[1][0]
             okm = okr = True
@@ -172,7 +235,7 @@ def check(ctx, prop, modules, theorems, rule, explanation, assumptions, level):
                 st["kinds"]["skipped(" + o[5:] + ")"] = st["kinds"].get("skipped(" + o[5:] + ")", 0) + 1
                 continue
             elif prop in ("C09", "C10") and kind == "c":
-                mm = re.match(r"sent=(.*) parsed=(.*) wire=(.*) respsent=(.*) respgot=(.*)$", o)
+                mm = re.match(r"sent=(.*) parsed=(.*) wire=(.*) respsent=(.*) respgot=(.*?)(?: hdrs=(\S*))?$", o)
                 st["evaluations"] += 1
                 if not mm:
                     okm = okr = False
